@@ -3,19 +3,29 @@ from harness import common as C
 from harness import arrays
 
 PROPERTY = "C18"
-LEAN_TARGETS = ["VectorModel.Props.C18"]
-THEOREM_FILES = ["VectorModel/Props/C18.lean"]
+LEAN_TARGETS = ["VectorModel.Props.C18", "VectorModel.Props.C18Layout"]
+THEOREM_FILES = ["VectorModel/Props/C18.lean", "VectorModel/Props/C18Layout.lean"]
 NEEDS_TRANSLATOR = False
 
 
 def correspondence(ctx):
     problems, stats, samples = arrays.c18_run(ctx)
+    # the Lean LAYOUT model itself (Glue/Awkward.lean: map / zipWith over layout trees, carry rule) against the real Awkward backend:
+    # random layouts x methods x second operands, record name / coordinate fields / carried extras / list-and-missing structure
+    # predicted by the driver and compared line by line (harness/layout.py)
+    from harness import layout
+    lp, lst = layout.run(ctx)
+    problems = problems + [("layout:" + str(k), str(d)) for k, d in lp]
+    stats.update({"layout_" + k: v for k, v in lst.items() if isinstance(v, int)})
+    stats["layout_known_deviations"] = lst.get("known_deviations")
     seen, fails = set(), []
     for k, d in problems:
         if k in seen:
             continue
         seen.add(k)
-        fails.append({"key": k, "what": d[:400], "code": replay_code(ctx.seed, ctx.tier, k)})
+        fails.append({"key": k, "what": d[:400], "code": replay_code(ctx.seed, ctx.tier, k) if not k.startswith("layout:") else (
+            "import sys; sys.path.insert(0, %r); sys.path.insert(0, %r)\nfrom harness import layout\nclass X: seed=%d; tier=%r\n"
+            "problems, _ = layout.run(X)\nassert not problems, problems[0]\n" % (C.VERIF, C.VERIF + "/tools", ctx.seed, ctx.tier))})
     stats["traces_validated_against_impl"] = sum(v for v in stats.values() if isinstance(v, int))
     return {"ok": not problems, "disagreements": [f"{k}: {d}"[:300] for k, d in problems[:12]], "failing_inputs": fails[:6],
             "stats": stats, "samples": samples}
